@@ -115,12 +115,11 @@ def r18_4(ctx):
         ok = (isinstance(k, tuple) and len(k) == 2 and isinstance(k[0], ClassRef) and isinstance(k[1], Member) and k[1].cls == k[0]
               and isinstance(v, Member) and v.cls == sl)
         ctx.require(ok, f"map-entry:{k!r}"[:60], f"SL_STATUS_MAP entry {k!r} -> {v!r} is not (family, member of that family) -> unified status")
-    # the busy set retried by send_packet is made of images of legacy busy codes (or v14-native codes)
+    # the images of the legacy busy codes are statuses send_packet retries on (decided by exploring send_packet, not by its text)
+    from .app_tx import explore_send_packet, sends
+
     app = repo.func("bellows.zigbee.application:ControllerApplication.send_packet")
-    busy = None
-    for n in ast.walk(app.node):
-        if isinstance(n, ast.Compare) and isinstance(n.ops[0], ast.NotIn) and ast.unparse(n.left) == "status" and isinstance(n.comparators[0], (ast.Tuple, ast.List, ast.Set)):
-            busy = [ast.unparse(e).split(".")[-1] for e in n.comparators[0].elts]
-    ctx.anchor(busy, "send_packet's busy-status set")
     for fam, src, dst in STEERING[:3]:
-        ctx.require(dst in busy, f"busy:{src}", f"{fam}.{src} normalises to {dst}, which send_packet does not treat as busy ({busy})", func=app)
+        f_, paths = explore_send_packet(ctx, "Group", (dst, "OK"), None)
+        retried = any(len(sends(p)) >= 2 and sends(p)[0].extra[0].name == dst for p in paths)
+        ctx.require(retried, f"busy:{src}", f"{fam}.{src} normalises to {dst}, which send_packet does not retry on", func=app)
